@@ -735,6 +735,17 @@ example : ∃ w, Node.new sample = .ok w ∧
     (w.regs.filter (fun r => r.name = "/n/a")).map (fun r => (r.codec, r.fallback)) = [(.varint (some 1024), ["/n/old"])] :=
   ⟨_, rfl, by decide⟩
 
+/-- Every configured notification protocol object is constructed with its OWN channel sizes (the crate defaults when the
+setters were not called), auto-accept and dialing switches and handshake bytes. -/
+theorem notification_config_reaches_protocol (c : Config) :
+    ∀ p ∈ (build c).notif,
+      Note.notif p.name (p.sync.getD Consts.NODE_NOTIF_SYNC_CHANNEL_SIZE) (p.async.getD Consts.NODE_NOTIF_ASYNC_CHANNEL_SIZE)
+        (p.mode == 'a') (p.dial.getD true) p.handshake ∈ notes (build c) :=
+  fun _ hp => notes_notif_mem _ hp
+
+example : Note.notif "/n/a" 64 64 true true "0102" ∈ notes (build sample) := by decide
+
 end Litep2pVerif.Props.C11.Wiring
 
 #print axioms Litep2pVerif.Props.C11.Wiring.notification_registered_with_own_codec_and_size
+#print axioms Litep2pVerif.Props.C11.Wiring.notification_config_reaches_protocol
